@@ -18,11 +18,17 @@ use crate::test::double::mocks::MockStakeStore;
 
 use super::*;
 
-fn signers_recorded_under(epoch: u64) -> Vec<SignerWithStake> {
-    // a different number of signers per recording epoch: 2 under epoch 4, 3 under 5, 4 under 6, 5 under 7
-    MithrilFixtureBuilder::default().with_signers((epoch - 2) as usize).build().signers_with_stake()
+fn fixture_recorded_under(epoch: u64) -> mithril_common::test::builder::MithrilFixture {
+    // a different number of signers per recording epoch: 2 under epoch 4, 3 under 5, 4 under 6, 5 under 7; the key material
+    // recorded under epoch 5 / 6 was made for the parameters for aggregation / next aggregation of epoch 6
+    let tag = match epoch { 5 => 1, 6 => 2, _ => 3 };
+    MithrilFixtureBuilder::default().with_signers((epoch - 2) as usize).with_protocol_parameters(parameters(tag)).build()
 }
-fn parameters(tag: u64) -> ProtocolParameters { ProtocolParameters::new(5 + tag, 100 + tag, 0.65) }
+fn signers_recorded_under(epoch: u64) -> Vec<SignerWithStake> { fixture_recorded_under(epoch).signers_with_stake() }
+/// three strongly different parameter sets: 1 = for aggregation (every index won), 2 = for next aggregation, 3 = for registration
+fn parameters(tag: u64) -> ProtocolParameters {
+    match tag { 1 => ProtocolParameters::new(2, 10, 1.0), 2 => ProtocolParameters::new(20, 300, 0.2), _ => ProtocolParameters::new(5, 100, 0.65) }
+}
 fn settings(tag: u64) -> AggregatorEpochSettings {
     AggregatorEpochSettings { protocol_parameters: parameters(tag), ..AggregatorEpochSettings::dummy() }
 }
@@ -100,6 +106,24 @@ async fn replay_precompute_epoch_data() {
             "next aggregate key is not SignerBuilder(signers recorded under epoch 6, parameters for next aggregation)");
     assert!(service.protocol_multi_signer().unwrap().compute_aggregate_verification_key() == expected, "current multi-signer built from other inputs");
     assert!(service.next_protocol_multi_signer().unwrap().compute_aggregate_verification_key() == expected_next, "next multi-signer built from other inputs");
+    // the parameters are not part of the concatenation key, so they are checked through behaviour: single signatures made by
+    // the signers recorded under epoch 5 with the parameters for aggregation (phi_f = 1: all 10 indices) verify under the
+    // current multi-signer, those made by the signers recorded under epoch 6 with the parameters for next aggregation
+    // (m = 300) verify under the next multi-signer
+    let mut message = mithril_common::entities::ProtocolMessage::new();
+    message.set_message_part(mithril_common::entities::ProtocolMessagePartKey::CurrentEpoch, "6".to_string());
+    let signatures = fixture_recorded_under(5).sign_all(&message);
+    assert_eq!(signatures.len(), 3);
+    for s in &signatures {
+        service.protocol_multi_signer().unwrap().verify_single_signature(&message, s)
+            .expect("a signature made with the parameters for aggregation is rejected by the current multi-signer (built with other parameters?)");
+    }
+    let next_signatures = fixture_recorded_under(6).sign_all(&message);
+    assert!(next_signatures.iter().any(|s| s.won_indexes.iter().any(|i| *i >= 10)), "fixture too small to tell the two parameter sets apart");
+    for s in &next_signatures {
+        service.next_protocol_multi_signer().unwrap().verify_single_signature(&message, s)
+            .expect("a signature made with the parameters for next aggregation is rejected by the next multi-signer (built with other parameters?)");
+    }
 }
 
 /// update_next_signers_with_stake: re-reads the signers recorded under the CURRENT epoch (6) and recomputes the keys
